@@ -2041,6 +2041,10 @@ int EGLPNUM_TYPENAME_ILLlib_chgsense (
 			ILL_CLEANUP;
 		}
 		k = A->matbeg[j];
+		/* the range value belongs to the old sense: a row that becomes ranged starts
+		 * with range 0 (see below), a row of any other sense has none */
+		if (qslp->rangeval)
+			EGLPNUM_TYPENAME_EGlpNumZero (qslp->rangeval[rowlist[i]]);
 		switch (sense[i])
 		{
 		case 'R':									/* Range constraint, we will set its upper bound
